@@ -255,6 +255,17 @@ func mediaMarkerOf(n *html.Node) int {
 				}
 			}
 		}
+		// the real image of a lazily loaded figure may only exist as the raw text of a noscript element
+		if x.Type == html.TextNode && x.Parent != nil && x.Parent.Type == html.ElementNode && x.Parent.Data == "noscript" {
+			if m := rxMarker.FindStringSubmatch(x.Data); m != nil {
+				s := m[1]
+				if s == "" {
+					s = m[2]
+				}
+				found, _ = strconv.Atoi(s)
+				return
+			}
+		}
 		for c := x.FirstChild; c != nil; c = c.NextSibling {
 			rec(c)
 		}
@@ -439,6 +450,23 @@ func (w *refWalker) walk(n *html.Node, ctx refCtx) {
 			if !ctx.never && !ctx.inMedia && !ctx.ph {
 				src, _ := attr(n, "src")
 				if strings.Contains(src, "youtube") || strings.Contains(src, "vimeo") || strings.Contains(src, "twitter") {
+					if m := mediaMarkerOf(n); m != 0 {
+						w.src.Media = append(w.src.Media, SrcMedia{Marker: m, Kind: "emb", Prev: w.lastText})
+					}
+				}
+			}
+		case "object":
+			// a legacy YouTube embed: <object data=...> or <object><param name="movie" value=...>
+			if !ctx.never && !ctx.inMedia && !ctx.ph {
+				src, _ := attr(n, "data")
+				for c := n.FirstChild; c != nil; c = c.NextSibling {
+					if c.Type == html.ElementNode && c.Data == "param" {
+						if v, _ := attr(c, "value"); strings.Contains(v, "youtube") {
+							src = v
+						}
+					}
+				}
+				if strings.Contains(src, "youtube") {
 					if m := mediaMarkerOf(n); m != 0 {
 						w.src.Media = append(w.src.Media, SrcMedia{Marker: m, Kind: "emb", Prev: w.lastText})
 					}
